@@ -20,11 +20,11 @@ open Glue Generated
 
 /-- the error texts of the current source -/
 theorem c19_messages :
-    strsL lookupProg = [s%"interface not found: %s", s%"%s (%s) is not an interface"] ∧
+    (s%"interface not found: %s" ∈ strsL lookupProg) ∧ (s%"%s (%s) is not an interface" ∈ strsL lookupProg) ∧
     (s%"couldn't load source package: %s" ∈ strsL registryNewProg) ∧
     (s%"go/format: %s" ∈ strsL gofmtProg) ∧ (s%"goimports: %s" ∈ strsL goimportsProg) ∧
     (s%"not enough arguments" ∈ strsL runProg) ∧ (s%"must specify one interface" ∈ strsL mockProg) := by
-  refine ⟨by decide, by decide, by decide, by decide, by decide, by decide⟩
+  refine ⟨by decide, by decide, by decide, by decide, by decide, by decide, by decide⟩
 
 /-- `LookupInterface` is guarded: both error returns come before the unchecked assertions -/
 theorem c19_lookup_guarded :
